@@ -4,8 +4,8 @@ import PdfModel.Model.Import
 /-! Line-protocol handler for the C20 streams.
 
   c20.clone <fuel> <next> <nodes> <roots>
-      nodes  `id:payload:kids` joined by `;` (`-`: no nodes); kids / roots: `p12+r13+…` (`p` plain edge =
-             clone_plainref / clone_ref, `r` = clone_rcref), `-` for none
+      nodes  `id:payload:kidsPrim:kidsTyped` joined by `;` (`-`: no nodes); kids / roots: `p12+t13+r14+…`
+             (`p` = clone_plainref, `t` = clone_ref, `r` = clone_rcref), `-` for none
       → `<results>|<map>|<objs>`: results `ok.<new>` / `err` / `panic` / `oof` joined by `,`;
         map `old>new` joined by `,` (newest first); objs `id:payload:kids(+)` joined by `;`
   c20.page <fuel> <next> <nodes> <page> <page> …
@@ -21,7 +21,8 @@ open Import Proto
 
 def parseEdge (s : String) : Option Edge :=
   match s.toList with
-  | 'p' :: rest => (natOf (String.ofList rest)).map (⟨.plain, ·⟩)
+  | 'p' :: rest => (natOf (String.ofList rest)).map (⟨.prim, ·⟩)
+  | 't' :: rest => (natOf (String.ofList rest)).map (⟨.ref, ·⟩)
   | 'r' :: rest => (natOf (String.ofList rest)).map (⟨.rc, ·⟩)
   | _ => none
 
@@ -30,7 +31,7 @@ def parseEdges (s : String) : Option (List Edge) :=
 
 def parseNode (s : String) : Option (Nat × Node) :=
   match s.splitOn ":" with
-  | [i, p, ks] => do some (← natOf i, ⟨← natOf p, ← parseEdges ks⟩)
+  | [i, p, ks, kt] => do some (← natOf i, ⟨← natOf p, ← parseEdges ks, ← parseEdges kt⟩)
   | _ => none
 
 def parseNodes (s : String) : Option (List (Nat × Node)) :=
@@ -68,7 +69,7 @@ def parseOp (s : String) : Option OpM :=
   | 'o' :: rest => (natOf (String.ofList rest)).map .other
   | _ => none
 
-def parseRes (s : String) : Option ((RKind × Nat) × Node) :=
+def parseRes (s : String) : Option ((RKind × Nat) × Entry) :=
   match s.splitOn ":" with
   | [head, ks] =>
     match head.splitOn "." with
